@@ -148,7 +148,7 @@ PROPS["C13"] = {
 }
 
 PROPS["C14"] = {
-    "test": "TestC14", "level": "fault_enumeration", "registered": True, "engine": "sim",
+    "test": "TestC14", "level": "fault_enumeration", "registered": True, "engine": "sim+binary", "need_bin": True,
     "shards_quick": 8, "shards_thorough": 16, "timeout": 900,
     "technique": "exhaustive small-scope enumeration of the exported Buffer (black-box spill-file size oracle in a private TMPDIR) plus end-to-end runtime monitor in virtual time with every way a request can end",
     "level_text": "Part 1 enumerates every (memory limit 0-6, total limit unlimited or 1-8, body 0-10 bytes, every composition of the body into write chunks up to 8 bytes) for both the writer and the reader variant of the real Buffer: acceptance iff within the limit, bytes read back equal bytes written, after every single chunk the spill file holds at least accepted-minus-memory-limit bytes (so no more than the memory limit is in memory) and exists only when needed, and TMPDIR is empty after Close. Part 2 drives request/response buffering end to end (sizes at limit-1/limit/limit+1, 1-5 chunks with virtual gaps, all four buffering combinations) through endings success, request overflow (413, target not contacted), response overflow (500, none of the body), target closing before answering, target truncating, client aborting upload or download, event stream and upgrade: exact bodies, target contacted only after the client's last body byte, client served only after the target's last body byte, first SSE event delivered while the stream is open, spill-size bound observed at the target and at the client, TMPDIR empty afterwards.",
